@@ -30,10 +30,6 @@ import (
 	"verifharness/hx"
 )
 
-const (
-	keyDirectiveDropped = "F-05f-directive-argument-coercion-error-dropped"
-	keyCostUnvalidated  = "F-05g-cost-function-sees-arguments-of-invalid-document"
-)
 
 type harness struct {
 	run     *hx.Run
@@ -327,9 +323,6 @@ func (h *harness) judge(p *prepared, rs []string) []failure {
 				bad(orConf, "cost pass: "+o.Cost)
 			} else if ok, why := conformsArgs(pc, o.Cost); !ok {
 				confOK = false
-				if o.Class == "invalid" {
-					key = keyCostUnvalidated
-				}
 				bad(orConf, "the cost function observed arguments that do not conform: "+why)
 			}
 		}
@@ -350,8 +343,11 @@ func (h *harness) judge(p *prepared, rs []string) []failure {
 		if o.Class == "ok" && g.Site == "directive" && !o.GRan {
 			bad(orSkip, "the probe filter accepted the selection but the field did not run")
 		}
+		if o.Class == "fielderr" && g.Site != "field" && o.GRan {
+			bad(orSkip, "the directive's arguments do not coerce but the selection was executed")
+		}
 		// (4) the reference, (5) agreement
-		exempt := p.lossy[i] || (p.gap[i] && o.Class == "invalid")
+		exempt := p.lossy[i]
 		if !exempt {
 			res := "error"
 			if o.Class == "ok" {
@@ -363,9 +359,6 @@ func (h *harness) judge(p *prepared, rs []string) []failure {
 				res = "no error and no observation"
 			}
 			if res != canon(refStr) {
-				if o.Class == "swallowed" && !refOK && g.Site != "field" {
-					key = keyDirectiveDropped
-				}
 				bad(orRef, fmt.Sprintf("the client value coerces to %s (reference) but this spelling gave %s", refStr, res))
 			} else {
 				h.ob(orRef, "oracle", true, "")
@@ -386,21 +379,16 @@ func (h *harness) judge(p *prepared, rs []string) []failure {
 				tie = "unexpected model reply " + rs[i]
 			} else {
 				if o1 != o2 {
-					h.run.Count("typeinfo-gap(F-04d)")
+					h.run.Count("object-literal-with-variable-in-list-position(F-04d repaired)")
 				}
-				if implOutcome != o1 && implOutcome != o2 {
+				if implOutcome != o1 {
 					tie = fmt.Sprintf("outcome: implementation %s, model %s", implOutcome, o1)
-				}
-				if o.Class == "swallowed" && g.Site != "field" && key == "" && tie == "" {
-					// model and code agree that the directive's coercion error is dropped: the known
-					// finding, also for spellings the reference does not judge
-					key = keyDirectiveDropped
-					oracle = append(oracle, "coercion of the directive's arguments fails but the client receives no error")
 				}
 				h.ob(obOutcome, "correspondence", tie == "", tie+" | "+query+" "+variables)
 				if g.Site == "field" {
+					// ValidateCost runs only on documents the standard rules accept (patch 06)
 					want := "-"
-					if strings.HasPrefix(o3, "(ok") {
+					if strings.HasPrefix(o3, "(ok") && o1 != "invalid" {
 						want = o3
 					}
 					costTie := ""
